@@ -33,7 +33,7 @@ Fresh == /\ holder = 1
          /\ tst = [t \in 1..MaxT |-> IF t = 1 THEN "ok" ELSE "none"]
          /\ exited = {}
 
-Init == l = 1 /\ Fresh
+Init == l = 1 /\ Fresh /\ TLCSet(1, 0)
 
 Ev == Trace[l]
 Is(k) == l <= Len(Trace) /\ Ev.k = k
@@ -111,5 +111,6 @@ Next == Access \/ Start \/ ResumeOrClose \/ Yield \/ Dead \/ Send \/ Sent \/ Rec
 Spec == Init /\ [][Next]_vars
 
 OneRunner == Cardinality({g \in 1..MaxG : holder = g}) <= 1
-Accepted == TLCGet("stats").diameter - 1 = Len(Trace)
+MarkC == TLCSet(1, IF TLCGet(1) < l THEN l ELSE TLCGet(1))
+Accepted == PrintT(<<"@@", ToJson([hw |-> TLCGet(1)])>>) /\ TLCGet(1) = Len(Trace) + 1
 =============================================================================
